@@ -222,6 +222,21 @@ fn oracle(cfg: &SchedCfg, run: &SchedRun) -> Option<(String, String)> {
             prev_bg = bg;
         }
     }
+    // C09: at the transition from the early to the main phase the window is max(mass_matrix_switch_freq, draws in the BACKGROUND estimator)
+    // (or, if a switch happens on that very draw, its grown successor) -- never seeded from the older foreground estimator
+    {
+        let early_end = run.init_counters[1];
+        if early_end < final_window && early_end < cfg.num_tune && (early_end as usize) < run.draws.len() {
+            let prev_bg = if early_end == 0 { run.init_counters[8] } else { run.draws[early_end as usize - 1].counters[8] };
+            let prev_win = if early_end == 0 { run.init_counters[6] } else { run.draws[early_end as usize - 1].counters[6] };
+            let w = prev_win.max(prev_bg);
+            let grown = (w + 1).max((w as f64 * cfg.growth).round() as u64);
+            let got = run.draws[early_end as usize].counters[6];
+            if got != w && got != grown {
+                return Some(("sched.main_window_seed".into(), format!("first main-phase draw {early_end}: window {got}, expected max(configured {prev_win}, background count {prev_bg}) = {w} (or {grown} after a switch)")));
+            }
+        }
+    }
     // after warmup: base step size constant, step size within the jitter band
     if cfg.num_tune >= 1 && (cfg.num_tune as usize) < run.draws.len() && cfg.method != 2 {
         let bar = run.draws[cfg.num_tune as usize - 1].step_size_bar;
@@ -234,6 +249,18 @@ fn oracle(cfg: &SchedCfg, run: &SchedRun) -> Option<(String, String)> {
             let ratio = rec.step_size / rec.step_size_bar;
             if !(ratio >= 1.0 - j - 1e-12 && ratio <= 1.0 + j + 1e-12) {
                 return Some(("sched.jitter_band".into(), format!("post-warmup step size {} outside jitter band {j} around {}", rec.step_size, rec.step_size_bar)));
+            }
+        }
+    }
+    // fixed step size (method Fixed, and every Euclidean MCLMC chain): EVERY step size, during and after warmup, lies within the jitter
+    // band around the configured constant (the jitter must not compound from draw to draw)
+    if cfg.method == 2 || cfg.preset >= 2 {
+        let fixed = 0.3;
+        let j = cfg.jitter.unwrap_or(0.0);
+        for (d, rec) in run.draws.iter().enumerate() {
+            let ratio = rec.step_size / fixed;
+            if !(ratio >= 1.0 - j - 1e-12 && ratio <= 1.0 + j + 1e-12) {
+                return Some(("sched.fixed_jitter_band".into(), format!("draw {d}: step size {} outside the jitter band {j} around the fixed step size {fixed}", rec.step_size)));
             }
         }
     }
